@@ -16,7 +16,7 @@ use std::fmt;
 use std::hash::{Hash, Hasher};
 use std::ops::{Add, AddAssign, Neg, Sub, SubAssign};
 
-pub use rc::{Datelike, IsoWeek, Months, ParseError, ParseResult, Weekday};
+pub use rc::{Datelike, Days, IsoWeek, Month, Months, ParseError, ParseResult, Weekday};
 use vrt::{SymBool, SymInt};
 
 pub mod prelude {
@@ -68,6 +68,40 @@ impl TimeDelta {
     }
     pub const fn seconds(n: i64) -> Self {
         TimeDelta { secs: SymInt::Const(n) }
+    }
+    pub const fn try_weeks(n: i64) -> Option<Self> {
+        match n.checked_mul(7 * DAY) {
+            Some(s) if s.abs() <= i64::MAX / 1000 => Some(TimeDelta { secs: SymInt::Const(s) }),
+            _ => None,
+        }
+    }
+    pub const fn try_hours(n: i64) -> Option<Self> {
+        match n.checked_mul(3600) {
+            Some(s) if s.abs() <= i64::MAX / 1000 => Some(TimeDelta { secs: SymInt::Const(s) }),
+            _ => None,
+        }
+    }
+    pub const fn try_minutes(n: i64) -> Option<Self> {
+        match n.checked_mul(60) {
+            Some(s) if s.abs() <= i64::MAX / 1000 => Some(TimeDelta { secs: SymInt::Const(s) }),
+            _ => None,
+        }
+    }
+    pub const fn try_seconds(n: i64) -> Option<Self> {
+        if n.abs() <= i64::MAX / 1000 {
+            Some(TimeDelta { secs: SymInt::Const(n) })
+        } else {
+            None
+        }
+    }
+    pub fn abs(self) -> Self {
+        TimeDelta { secs: SymInt::ite(self.secs.lt(SymInt::Const(0)), SymInt::Const(0).sub(self.secs), self.secs) }
+    }
+    pub fn checked_add(&self, o: &TimeDelta) -> Option<TimeDelta> {
+        Some(TimeDelta { secs: self.secs.add(o.secs) })
+    }
+    pub fn checked_sub(&self, o: &TimeDelta) -> Option<TimeDelta> {
+        Some(TimeDelta { secs: self.secs.sub(o.secs) })
     }
     /// Shim-only: a symbolic number of seconds.
     pub fn from_sym_secs(secs: SymInt) -> Self {
@@ -217,6 +251,24 @@ impl NaiveDate {
     }
     pub fn checked_add_months(self, m: Months) -> Option<NaiveDate> {
         self.0.checked_add_months(m).map(NaiveDate)
+    }
+    pub fn checked_add_days(self, days: Days) -> Option<NaiveDate> {
+        self.0.checked_add_days(days).map(NaiveDate)
+    }
+    pub fn checked_sub_days(self, days: Days) -> Option<NaiveDate> {
+        self.0.checked_sub_days(days).map(NaiveDate)
+    }
+    pub fn and_hms_milli_opt(&self, h: u32, m: u32, s: u32, _ms: u32) -> Option<NaiveDateTime> {
+        self.and_hms_opt(h, m, s)
+    }
+    pub fn week(&self, start: Weekday) -> rc::NaiveWeek {
+        self.0.week(start)
+    }
+    pub fn leap_year(&self) -> bool {
+        self.0.leap_year()
+    }
+    pub fn years_since(&self, base: NaiveDate) -> Option<u32> {
+        self.0.years_since(base.0)
     }
     pub fn checked_sub_months(self, m: Months) -> Option<NaiveDate> {
         self.0.checked_sub_months(m).map(NaiveDate)
@@ -486,6 +538,22 @@ pub struct NaiveDateTime {
 }
 
 impl NaiveDateTime {
+    pub const MIN: NaiveDateTime = NaiveDateTime { date: NaiveDate::MIN, time: NaiveTime { secs: SymInt::Const(0) } };
+    pub const MAX: NaiveDateTime = NaiveDateTime { date: NaiveDate::MAX, time: NaiveTime { secs: SymInt::Const(86_399) } };
+
+    pub fn checked_add_days(self, days: Days) -> Option<Self> {
+        self.date.checked_add_days(days).map(|d| NaiveDateTime { date: d, time: self.time })
+    }
+    pub fn checked_sub_days(self, days: Days) -> Option<Self> {
+        self.date.checked_sub_days(days).map(|d| NaiveDateTime { date: d, time: self.time })
+    }
+    pub fn checked_add_months(self, m: Months) -> Option<Self> {
+        self.date.checked_add_months(m).map(|d| NaiveDateTime { date: d, time: self.time })
+    }
+    pub fn checked_sub_months(self, m: Months) -> Option<Self> {
+        self.date.checked_sub_months(m).map(|d| NaiveDateTime { date: d, time: self.time })
+    }
+
     pub const fn new(date: NaiveDate, time: NaiveTime) -> Self {
         NaiveDateTime { date, time }
     }
